@@ -78,6 +78,16 @@ Theorem C09_ls_deconv_returns : forall (response : list float) (offs las : list 
 Proof. exact ls_deconv_f_total. Qed.
 Print Assumptions C09_ls_deconv_returns.
 
+(* the hypothesis response_windows_ok in the form the harness measures it on the implementation's tables
+   (rel17table): the first 13 bins of the wire response, bins 3..17 of the pad response, exist and are negative *)
+Theorem C09_response_windows_from_table : forall wire_response pad_response : list float,
+  (13 <= length wire_response)%nat -> (forall k, (k < 13)%nat -> f_neg (nth k wire_response 0%float) = true) ->
+  (17 <= length pad_response)%nat -> (forall k, (3 <= k < 17)%nat -> f_neg (nth k pad_response 0%float) = true) ->
+  response_windows_ok wire_response (range_incl 0 1) (range_incl 3 12) /\
+  response_windows_ok pad_response (range_incl 3 5) (range_incl 7 12).
+Proof. exact (fun w p a b c d => conj (wire_windows_from_table w a b) (pad_windows_from_table p c d)). Qed.
+Print Assumptions C09_response_windows_from_table.
+
 (* (4) match_column_inputs for the 8 wires of a pad column: t_max exists, TpcWirePosition::try_from and
    TpcPadRow::try_from(row - 1) succeed, both sorts' partial_cmp().unwrap() succeed - for ALL input values *)
 Theorem C09_match_column_total :
